@@ -88,7 +88,11 @@ theorem resetFixed_after_run (s : Stack) (ops : List Op) :
   have h := reset_after_run s ops
   unfold resetFixed
   unfold resetStack at h
-  rw [h]
+  simp only [h]
+  cases s with
+  | mk f v =>
+    simp only [Stack.mk.injEq, true_and]
+    omega
 
 theorem pushed_runOps (d v : Nat) : pushed (runOps d v) = v := by
   unfold runOps
@@ -99,31 +103,70 @@ theorem pushed_runOps (d v : Nat) : pushed (runOps d v) = v := by
 
 def leakSum (steps : List Step) : Nat := (steps.map failLeak).sum
 
-theorem history_leaks : ∀ (steps : List Step) (s : Stack),
+theorem history_leaks : ∀ (steps : List Step) (s : Stack), (∀ st ∈ steps, st.topLevel = true) →
     runHistory resetStack steps s = ⟨s.frames, s.values + leakSum steps⟩
-  | [], s => by simp [runHistory, leakSum]
-  | .ok d v :: steps, s => by
-    have := history_leaks steps s
+  | [], s, _ => by simp [runHistory, leakSum]
+  | .ok d v :: steps, s, h => by
+    have := history_leaks steps s (fun st hs => h st (List.mem_cons_of_mem _ hs))
     simp only [runHistory, List.foldl_cons, stepWith] at this ⊢
     rw [this]; simp [leakSum, failLeak]
-  | .fail d v :: steps, s => by
+  | .fail d v :: steps, s, h => by
     have h1 : stepWith resetStack s (.fail d v) = ⟨s.frames, s.values + v⟩ := by
       simp only [stepWith]; rw [reset_after_run, pushed_runOps]
-    have := history_leaks steps ⟨s.frames, s.values + v⟩
+    have := history_leaks steps ⟨s.frames, s.values + v⟩ (fun st hs => h st (List.mem_cons_of_mem _ hs))
     simp only [runHistory, List.foldl_cons] at this ⊢
     rw [h1, this]; simp [leakSum, failLeak]; omega
+  | .hostFail d v :: steps, s, h => by
+    have := h (.hostFail d v) List.mem_cons_self
+    simp [Step.topLevel] at this
 
-theorem history_fixed : ∀ (steps : List Step) (s : Stack), runHistory resetFixed steps s = s
-  | [], s => by simp [runHistory]
-  | .ok d v :: steps, s => by
-    have := history_fixed steps s
+theorem history_fixed : ∀ (steps : List Step) (s : Stack), (∀ st ∈ steps, st.topLevel = true) →
+    runHistory resetFixed steps s = s
+  | [], s, _ => by simp [runHistory]
+  | .ok d v :: steps, s, h => by
+    have := history_fixed steps s (fun st hs => h st (List.mem_cons_of_mem _ hs))
     simp only [runHistory, List.foldl_cons, stepWith] at this ⊢
     exact this
-  | .fail d v :: steps, s => by
+  | .fail d v :: steps, s, h => by
     have h1 : stepWith resetFixed s (.fail d v) = s := by
       simp only [stepWith]; exact resetFixed_after_run s _
-    have := history_fixed steps s
+    have := history_fixed steps s (fun st hs => h st (List.mem_cons_of_mem _ hs))
     simp only [runHistory, List.foldl_cons] at this ⊢
     rw [h1]; exact this
+  | .hostFail d v :: steps, s, h => by
+    have := h (.hostFail d v) List.mem_cons_self
+    simp [Step.topLevel] at this
+
+def enters : List Op → Nat
+  | [] => 0
+  | .push _ :: ops => enters ops
+  | .enter _ :: ops => 1 + enters ops
+
+theorem run_frames_length : ∀ (ops : List Op) (s : Stack),
+    (s.run ops).frames.length = s.frames.length + enters ops
+  | [], s => by simp [Stack.run, enters]
+  | .push n :: ops, s => by
+    have := run_frames_length ops (s.apply (.push n))
+    simp only [Stack.run, List.foldl_cons] at this ⊢
+    rw [this]; simp [Stack.apply, enters]
+  | .enter a :: ops, s => by
+    have := run_frames_length ops (s.apply (.enter a))
+    simp only [Stack.run, List.foldl_cons] at this ⊢
+    rw [this]; simp [Stack.apply, enters]; omega
+
+theorem enters_runOps (d v : Nat) : enters (runOps d v) = d := by
+  unfold runOps
+  simp only [enters]
+  induction d with
+  | zero => simp [enters]
+  | succ n ih => simp [List.replicate_succ, enters] at ih ⊢; omega
+
+/-- A failed host call of a Gluon function leaves `d` frames and `v` values behind. -/
+theorem hostFail_leaves (reset : Nat → Nat → Stack → Stack) (s : Stack) (d v : Nat) :
+    (stepWith reset s (.hostFail d v)).frames.length = s.frames.length + d ∧
+    (stepWith reset s (.hostFail d v)).values = s.values + v := by
+  simp only [stepWith]
+  rw [run_frames_length, run_values, enters_runOps, pushed_runOps]
+  exact ⟨rfl, rfl⟩
 
 end GluonModel.Proofs.Frames
